@@ -16,6 +16,11 @@ type c11Handler struct {
 	Body    string              `json:"body,omitempty"`
 	Hdr     map[string][]string `json:"hdr,omitempty"`      // set (replacing) before WriteHeader
 	AddVary string              `json:"add_vary,omitempty"` // appended with Header().Add
+	// Add: values appended with Header().Add (key, value pairs)
+	Add [][2]string `json:"add,omitempty"`
+	// Nested: after writing its headers the handler sends the same request through the same wrapped handler
+	// with a fresh writer (a deterministic stand-in for an overlapping request), then finishes
+	Nested bool `json:"nested,omitempty"`
 }
 
 type c11Case struct {
@@ -28,6 +33,10 @@ type c11Case struct {
 }
 
 type c11Inner struct {
+	self    http.Handler // the wrapped handler (for nested dispatch)
+	depth   int
+	nested  int
+	damaged string
 	spec    c11Handler
 	calls   int
 	reqs    []*http.Request
@@ -45,6 +54,17 @@ func cloneHeader(h http.Header) http.Header {
 }
 
 func (in *c11Inner) ServeHTTP(w http.ResponseWriter, r *http.Request) {
+	if in.depth > 0 {
+		// nested (overlapping) request: same behaviour with a different marker, not counted as a top-level call
+		in.nested++
+		for _, kv := range in.spec.Add {
+			w.Header().Add(kv[0], kv[1]+"-nested")
+		}
+		for k, v := range in.spec.Hdr {
+			w.Header()[k] = append([]string(nil), v...)
+		}
+		return
+	}
 	in.calls++
 	in.reqs = append(in.reqs, r)
 	in.ws = append(in.ws, w)
@@ -56,6 +76,19 @@ func (in *c11Inner) ServeHTTP(w http.ResponseWriter, r *http.Request) {
 	}
 	if in.spec.AddVary != "" {
 		w.Header().Add("Vary", in.spec.AddVary)
+	}
+	for _, kv := range in.spec.Add {
+		w.Header().Add(kv[0], kv[1])
+	}
+	if in.spec.Nested && in.self != nil {
+		mine := cloneHeader(w.Header())
+		in.depth++
+		r2 := r.Clone(r.Context())
+		in.self.ServeHTTP(vlib.NewRec(), r2)
+		in.depth--
+		if !reflect.DeepEqual(map[string][]string(mine), map[string][]string(w.Header())) {
+			in.damaged = fmt.Sprintf("%v -> %v", mine, w.Header())
+		}
 	}
 	if in.spec.Status != 0 {
 		w.WriteHeader(in.spec.Status)
@@ -88,6 +121,7 @@ func c11Judge(k c11Case) *vlib.Failure {
 	}
 	inner := &c11Inner{spec: k.Handler}
 	h := m.Wrap(inner)
+	inner.self = h
 	rec := vlib.NewRec()
 	for kk, v := range k.Preset {
 		rec.H[kk] = append([]string(nil), v...)
@@ -161,6 +195,20 @@ func c11Judge(k c11Case) *vlib.Failure {
 			}
 		}
 	}
+	if inner.damaged != "" {
+		return vlib.Failf("the response headers of this request were changed while another request went through the same middleware: %s", inner.damaged)
+	}
+	for _, kv := range k.Handler.Add {
+		found := false
+		for _, v := range rec.H[kv[0]] {
+			if v == kv[1] {
+				found = true
+			}
+		}
+		if !found {
+			return vlib.Failf("handler added %s: %q, client gets %q", kv[0], kv[1], rec.H[kv[0]])
+		}
+	}
 	// after the handler returned nothing changes any more
 	if !reflect.DeepEqual(map[string][]string(inner.atExit), map[string][]string(rec.H)) {
 		return vlib.Failf("response headers changed after the wrapped handler returned: %v -> %v", inner.atExit, rec.H)
@@ -212,6 +260,7 @@ func checkC11(c *vlib.Ctx) (string, string) {
 		{Origins: []string{"https://a.example"}, Credentialed: true, Methods: []string{"PUT"}, RequestHeaders: []string{"X-A"}, ResponseHeaders: []string{"X-R"}, MaxAge: 30},
 		{Origins: []string{"https://a.example"}, PNANoCORS: true, Methods: []string{"PUT"}},
 		{Origins: []string{"https://a.example", "https://b.example"}, PNA: true, Methods: []string{"*"}, RequestHeaders: []string{"*"}, Status: 200},
+		{Origins: []string{"https://a.example"}, Methods: []string{"PUT", "PATCH", "DELETE"}, RequestHeaders: []string{"X-A", "X-B", "X-C"}, ResponseHeaders: []string{"X-R", "X-S", "X-T"}, MaxAge: 30},
 	}
 	type cd struct {
 		pass int
@@ -241,6 +290,15 @@ func checkC11(c *vlib.Ctx) (string, string) {
 			}
 		}
 	}
+	for _, nested := range []bool{false, true} {
+		for _, add := range [][][2]string{
+			{{"Access-Control-Expose-Headers", "X-Mine"}}, {{"Access-Control-Allow-Origin", "https://mine.example"}}, {{"Vary", "X-Mine"}, {"Access-Control-Allow-Credentials", "mine"}},
+			{{"Access-Control-Expose-Headers", "X-Mine"}, {"Access-Control-Expose-Headers", "X-Mine2"}, {"X-Arbitrary", "1"}},
+		} {
+			handlers = append(handlers, c11Handler{Status: 200, Add: add, Nested: nested})
+		}
+	}
+	handlers = append(handlers, c11Handler{Status: 200, Hdr: map[string][]string{"X-Arbitrary": {"1"}}, Nested: true})
 	presets := []map[string][]string{nil, {"Vary": {"before"}}, {"X-Up": {"1"}}, {"Access-Control-Allow-Origin": {"https://upstream.example"}, "Vary": {"a", "b"}}, {"Access-Control-Max-Age": {"9"}, "Set-Cookie": {"a=b"}}}
 	prod := vlib.Product{Sizes: []int{len(cds), len(methods), len(origins), len(acrms), len(acrhs), len(acrpns), len(handlers), len(presets)}}
 	c.ParRange(prod.Count(), 256, "C11 product", func(i int64) {
